@@ -63,11 +63,11 @@ def meat(index, rep):
     init = index.func(MD, "MeatAndDairy.initialize_this_country_animal_kcals")
     calc = index.func(MD, "MeatAndDairy.calculate_meat_after_distribution_waste")
     params = [a.arg for a in calc.args.args][1:]
-    if len(params) != 1 + len(LANES):
+    if len(params) not in (len(LANES), 1 + len(LANES)):
         raise AnalysisError(f"calculate_meat_after_distribution_waste parameters changed: {params}")
     culled = [Rat.atom(("culled", i)) for i in range(5)]
     from .core import bind_named as _bn5
-    calc_a, calc_k = _bn5(calc, [("constants_inputs", Path(("ci",)))] + list(zip([l[0] for l in LANES], culled)))
+    calc_a, calc_k = _bn5(calc, [("constants_inputs", Path(("ci",)))] + list(zip([l[0] for l in LANES], culled)), optional=("constants_inputs",))
 
     def runit(it):
         it.classes = {"MeatAndDairy": cls}
